@@ -67,11 +67,19 @@ fn parse_args() -> Args {
 }
 
 pub fn scratch_base() -> PathBuf {
-    let t = std::env::var("TMPDIR").unwrap_or_else(|_| "/tmp".to_string());
-    // every run directory has the same path length (zero-padded pid, three-character leaf): some
-    // error pages of the server quote absolute paths, and response lengths are part of the
-    // event-log hash that a replay has to reproduce
-    PathBuf::from(t).join(format!("rws-sim-{:07}", std::process::id()))
+    // $TMPDIR, else the memory file system when there is one (building thousands of small trees
+    // from 16 processes costs mostly kernel time on a disk file system), else /tmp
+    let t = std::env::var("TMPDIR").unwrap_or_else(|_| {
+        let shm = Path::new("/dev/shm");
+        let writable = shm.is_dir() && unsafe { libc::access(b"/dev/shm\0".as_ptr() as *const libc::c_char, libc::W_OK | libc::X_OK) } == 0;
+        if writable { "/dev/shm".to_string() } else { "/tmp".to_string() }
+    });
+    // every run directory has the same path length whatever the base (padded name, zero-padded pid,
+    // three-character leaf): some error pages of the server quote absolute paths, and response
+    // lengths are part of the event-log hash that a replay has to reproduce
+    let t = t.trim_end_matches('/').to_string();
+    let pad = 24usize.saturating_sub(t.len());
+    PathBuf::from(&t).join(format!("rws-sim-{}{:07}", "_".repeat(pad), std::process::id()))
 }
 
 pub struct CheckCfg {
